@@ -66,3 +66,16 @@ Print Assumptions C18_after_close.
 Theorem C18_monotone : forall s a s', nstep s a = Some s' -> nxt s <= nxt s'.
 Proof. exact next_offset_monotone. Qed.
 Print Assumptions C18_monotone.
+
+(* a context that ends BEFORE the waiter is parked (Wait looks at it only in its final select): the system extended
+   with pending cancellations (Notify.xstep) takes only steps of the base system or none, so the invariant - and with
+   it every theorem above - holds after any schedule with early cancellations *)
+Theorem C18_early_cancellation_adds_no_behaviour :
+  forall x a x', xstep x a = Some x' -> base x' = base x \/ exists a', nstep (base x) a' = Some (base x').
+Proof. exact xstep_base. Qed.
+Print Assumptions C18_early_cancellation_adds_no_behaviour.
+
+Theorem C18_invariant_with_early_cancellations :
+  forall next ts sched, forallb entry ts = true -> ninv (base (xrun (mkX (ninit next ts) []) sched)).
+Proof. exact xrun_inv. Qed.
+Print Assumptions C18_invariant_with_early_cancellations.
